@@ -110,6 +110,18 @@ class _Rewriter(ast.NodeTransformer):
         k = self.loop_counter.get(ck, 0) + 1
         self.loop_counter[ck] = k
         self.generic_visit(node)
+        from .comp import FILTER_SPECS
+        if (self.relpath, q, k) in FILTER_SPECS:
+            # `[x for x in it if cond(x)]` declared as a filter (comp.filtercomp): additive rule 6b
+            g = node.generators[0]
+            if (len(node.generators) != 1 or len(g.ifs) != 1 or g.is_async or not isinstance(g.target, ast.Name)
+                    or not isinstance(node.elt, ast.Name) or node.elt.id != g.target.id):
+                raise SpecError(f"filter contract on an unsupported comprehension: {self.relpath}:{q}#{k}")
+            self.counts["comps"] = self.counts.get("comps", 0) + 1
+            lam = ast.Lambda(ast.arguments(posonlyargs=[], args=[ast.arg(g.target.id)], kwonlyargs=[], kw_defaults=[],
+                                           defaults=[]), g.ifs[0])
+            return ast.copy_location(ast.Call(ast.Name("_pyvc_filtercomp", ast.Load()),
+                                              [ast.Constant((self.relpath, q, k)), lam, g.iter], []), node)
         if (self.relpath, q, k) not in COMP_SPECS:
             return node
         g = node.generators[0]
@@ -140,11 +152,46 @@ class _Rewriter(ast.NodeTransformer):
                 args.append(v)
         return ast.Call(ast.Name("_pyvc_fstr", ast.Load()), args, [])
 
+    # -- 7. `name = [elt for x in it if cond]` that has a LOOP contract with ordinal "comp<k>" in the spec
+    #       (k = ordinal of the list comprehension in its function) is desugared, for symbolic runs only, into
+    #       `name = []` + `for x in it: if cond: name.append(elt)`; that loop is then cut like any loop under
+    #       contract (the contract must give `name` a type in types=, so that it is havoc'd at the loop head).
+    #       Additive: assignments without such a contract are untouched.
+    def visit_Assign(self, node):
+        v = node.value
+        if isinstance(v, ast.ListComp) and len(node.targets) == 1 and isinstance(node.targets[0], ast.Name):
+            q = self._cur_func()
+            k = self.loop_counter.get(("comp", q), 0) + 1
+            spec = LOOP_SPECS.get((self.relpath, q, f"comp{k}"))
+            if spec is not None:
+                import copy as _copy
+                g = v.generators[0]
+                name = node.targets[0].id
+                if len(v.generators) != 1 or g.is_async or name not in (spec.types or {}):
+                    raise SpecError(f"loop contract on an unsupported comprehension (or its target has no type in "
+                                    f"types=): {self.relpath}:{q}#comp{k}")
+                self.loop_counter[("comp", q)] = k
+                orig = _copy.deepcopy(node)
+                add = ast.Expr(ast.Call(ast.Attribute(ast.Name(name, ast.Load()), "append", ast.Load()), [v.elt], []))
+                body = [add]
+                if g.ifs:
+                    body = [ast.If(g.ifs[0] if len(g.ifs) == 1 else ast.BoolOp(ast.And(), list(g.ifs)), [add], [])]
+                loop = _copy_locs(ast.For(g.target, g.iter, body, [], None), node)
+                init = ast.Assign([ast.Name(name, ast.Store())], ast.List([], ast.Load()))
+                cut = self._loop(loop, key=f"comp{k}")
+                wrapped = ast.If(ast.Call(ast.Name("_pyvc_active", ast.Load()), [], []), [init, cut], [orig])
+                return ast.copy_location(ast.fix_missing_locations(_copy_locs(wrapped, node)), node)
+        self.generic_visit(node)
+        return node
+
     # -- 3. loops
-    def _loop(self, node):
+    def _loop(self, node, key=None):
         q = self._cur_func()
-        k = self.loop_counter.get(q, 0) + 1
-        self.loop_counter[q] = k
+        if key is None:
+            k = self.loop_counter.get(q, 0) + 1
+            self.loop_counter[q] = k
+        else:
+            k = key                       # a desugared comprehension (rule 7): does not take a loop ordinal
         self.generic_visit(node)          # nested loops numbered after (pre-order numbering)
         spec = LOOP_SPECS.get((self.relpath, q, k))
         if spec is None:
@@ -372,6 +419,7 @@ class _Loader(importlib.machinery.SourceFileLoader):
         from . import comp
         d["_pyvc_mkset"] = comp.mkset
         d["_pyvc_listcomp"] = comp.listcomp
+        d["_pyvc_filtercomp"] = comp.filtercomp
         d["_pyvc_active"] = _ctx.active
         d["_pyvc_loop_begin"] = loops.loop_begin
         d["_pyvc_for_begin"] = loops.for_begin
